@@ -23,6 +23,14 @@ def main():
             mod.replay(spec['replay'], ctx)
         else:
             mod.run(spec, ctx)
+    except Exception as e:
+        # an exception that escaped every per-case guard: if it was raised inside the repository under test
+        # (e.g. while importing one of its modules) it is a violation witness, otherwise the harness failed
+        fr = runner.repo_frame(e.__traceback__)
+        if fr is None:
+            raise
+        ctx.violation('uncaught-exception-in-repository', f'{type(e).__name__}: {e} at {os.path.basename(fr.filename)}:{fr.lineno} in {fr.name}',
+                      {'shard_spec': spec}, sig=f'{type(e).__name__}@{os.path.basename(fr.filename)}:{fr.name}')
     finally:
         reach.stop()
     anchors = getattr(mod, 'REACH', {})
